@@ -2,6 +2,7 @@ import DaskModel.DriverLib
 import DaskModel.Model.NormalForm
 import DaskModel.Model.TaskNode
 import DaskModel.Model.Repack
+import DaskModel.Model.GraphMerge
 open Dask
 open Dask.NF
 open Dask.TaskNode
@@ -225,8 +226,30 @@ def hTune : Handler := handler fun args =>
     pure (.list [.list (keys.map SExp.ofOptNat), SExp.ofBool (Repack.tuneDown ops).isSome])
   | _ => none
 
+/-- symbolic value of a task: a code of (task constant, dependency values in order) -/
+def combine (c : Nat) (vs : List Nat) : Nat :=
+  vs.foldl (fun acc x => (acc * 1000003 + x + 1) % 2305843009213693951) c
+
+/-- `(mergeeval ((( key (dep…) const)…)…) (key…) fuel)` ↦ symbolic values of the keys in the merge of the graphs
+    (later graphs win), `none` for a key that does not evaluate -/
+def hMergeEval : Handler := handler fun args =>
+  match args with
+  | [.list graphs, keys, fuel] => do
+    let gs ← graphs.mapM (fun g => do
+      let entries ← g.toList?
+      entries.mapM (fun e => match e with
+        | .list [k, deps, c] => do pure ((← k.toNat?), (← deps.toNats?), (← c.toNat?))
+        | _ => none))
+    let keys ← keys.toNats?
+    let fuel ← fuel.toNat?
+    let toGraph (es : List (Nat × List Nat × Nat)) : GraphMerge.Graph Nat Nat := fun k =>
+      (es.reverse.find? (fun e => e.1 == k)).map (fun e => ⟨e.2.1, combine e.2.2⟩)
+    let merged := GraphMerge.mergeAll (gs.map toGraph)
+    pure (.list (keys.map (fun k => SExp.ofOptNat (GraphMerge.evalG merged fuel k))))
+  | _ => none
+
 def table : List (String × Handler) :=
-  [("unpack", hUnpack), ("unpacktop", hUnpackTop), ("tune", hTune),
+  [("mergeeval", hMergeEval), ("unpack", hUnpack), ("unpacktop", hUnpackTop), ("tune", hTune),
    ("nodepre", hNodePre), ("nodeclass", hNodeClass), ("nodeeval", hNodeEval),
    ("tokpre", hTokPre), ("tokprekw", hTokPreKw), ("pyrepr", hPyRepr), ("pystr", hPyStr), ("logical", hLogical)]
 
